@@ -181,3 +181,70 @@ def run_g13(chk, G13, repo):
                                   witness='TRANSITS(1) + TRANSITS(3,NODEPOT): the NODEPOT counts disappear; A + B != B + A')
     if n < 2:
         raise AnalysisError(f'G13: only {n} per-key set differences found in mfl/parse.py')
+
+
+def run_g15(chk, G15, repo):
+    """keys used to look functions up have the same component kinds as the keys the feature modules generate"""
+    pm = repo.module('pharmpy.tools.mfl.parse')
+    mf = pm.classes.get('ModelFeatures')
+    if mf is None:
+        raise AnalysisError('ModelFeatures not found')
+    # generated keys per tag: which components are `<x>.name` (strings) and which are raw values
+    gen = {}
+    for mod in repo.modules.values():
+        if not mod.name.startswith('pharmpy.tools.mfl.feature.'):
+            continue
+        f = mod.functions.get('features')
+        if f is None:
+            continue
+        named_vars = set()
+        str_consts = {n.targets[0].id for n in ast.walk(f.node) if isinstance(n, ast.Assign)
+                      and isinstance(n.targets[0], ast.Name) and isinstance(n.value, ast.Constant)
+                      and isinstance(n.value.value, str)}
+        for n in ast.walk(f.node):
+            # params = [(mode.name, production.name) for ...]: components of `param` are names
+            if isinstance(n, ast.Assign) and isinstance(n.value, ast.ListComp) and isinstance(n.value.elt, ast.Tuple) \
+                    and all(isinstance(e, ast.Attribute) and e.attr == 'name' for e in n.value.elt.elts):
+                named_vars.add(n.targets[0].id)
+        for y in [n for n in ast.walk(f.node) if isinstance(n, ast.Yield) and isinstance(n.value, ast.Tuple)]:
+            k = y.value.elts[0]
+            if not (isinstance(k, ast.Tuple) and k.elts and isinstance(k.elts[0], ast.Constant)):
+                continue
+            tag = k.elts[0].value
+            kinds = []
+            for e in k.elts[1:]:
+                if isinstance(e, ast.Attribute) and e.attr == 'name':
+                    kinds.append('name')
+                elif isinstance(e, ast.Starred):
+                    kinds += ['name', 'name'] if True else []
+                elif isinstance(e, ast.Constant):
+                    kinds.append('name')
+                elif isinstance(e, ast.Name) and e.id in str_consts:
+                    kinds.append('name')
+                else:
+                    kinds.append('raw')
+            gen.setdefault(tag, set()).add(tuple(kinds))
+    n = 0
+    for mname, m in mf.methods.items():
+        if not mname.startswith('_lnt_'):
+            continue
+        for sub in [x for x in ast.walk(m.node) if isinstance(x, ast.Subscript) and isinstance(x.slice, ast.Tuple)
+                    and x.slice.elts and isinstance(x.slice.elts[0], ast.Constant) and isinstance(x.slice.elts[0].value, str)
+                    and isinstance(x.value, ast.Name) and 'func' in x.value.id]:
+            tag = sub.slice.elts[0].value
+            if tag not in gen:
+                continue
+            kinds = tuple('name' if (isinstance(e, ast.Attribute) and e.attr == 'name') or isinstance(e, ast.Constant) else 'raw'
+                          for e in sub.slice.elts[1:])
+            # raw components are fine when the generated component is raw too (counts)
+            n += 1
+            ok = kinds in gen[tag]
+            chk.instance(G15, f'{mname}: lookup {unparse(sub.slice)[:60]} kinds {kinds}; generated {sorted(gen[tag])}: {ok}')
+            if not ok:
+                chk.violation(G15, pm.rel, m.qualname, unparse(sub)[:100],
+                              f'the feature module generates {tag} keys with components {sorted(gen[tag])}; this lookup passes '
+                              f'{kinds} (an object where its name is expected)', line=sub.lineno,
+                              witness='least_number_of_transformations between INDIRECTEFFECT(LINEAR,PRODUCTION) and '
+                                      'INDIRECTEFFECT(EMAX,DEGRADATION) raises KeyError')
+    if n < 4:
+        raise AnalysisError(f'G15: only {n} function look-ups found in the _lnt_ methods')
